@@ -240,4 +240,14 @@ Section Frames.
                                     (content_of (opt_bytes (m_request m))))
     | MT_ERROR => LOther (s64 (m_id m))
     end.
+
+  (* what one channel hands to its connection arrives at the peer's channel as this label *)
+  Definition arrives_as (e : event) : option label :=
+    match msg_of_event e with
+    | Some m => match wire_parse (wire_ser m) with
+                | Some m' => Some (label_of_msg m')
+                | None => None
+                end
+    | None => None
+    end.
 End Frames.
